@@ -4,6 +4,7 @@ import (
 	"bytes"
 	"context"
 	"fmt"
+	"google.golang.org/grpc/codes"
 	"sync"
 	"testing"
 
@@ -454,3 +455,175 @@ type grpcClientStreamIface interface {
 }
 
 func TestC09Storm(t *testing.T) { checkProp(t, "C09", "storm", genC09Storm, execC09Storm) }
+
+// ---- late readers: responses delivered before the failure, read after it ----------------------
+//
+// "... every call in flight returns an error (or the exact result, if its complete response had already been
+// delivered)". Here the callers do not touch their streams until the connection has failed: a stream whose last envelope
+// had arrived must still yield exactly its messages and its status; one whose trailer had not arrived must end in an
+// error (after at most the messages that did arrive) - and none may block.
+
+type C09LateStream struct {
+	Bodies   int  `json:"bodies"`   // response messages delivered before the failure (0..1 with the trailer, 0..2 without)
+	Complete bool `json:"complete"` // the trailer was delivered too
+	Code     int  `json:"code"`     // status of that trailer (0 = OK)
+}
+
+type C09Late struct {
+	Streams    []C09LateStream `json:"streams"`
+	WriteFails bool            `json:"write_fails"`
+	ErrKind    string          `json:"err_kind"`
+	Stats      bool            `json:"stats,omitempty"`
+	Ser        bool            `json:"ser"`
+}
+
+func genC09Late(t *rapid.T) C09Late {
+	c := C09Late{WriteFails: rapid.Bool().Draw(t, "wf"), ErrKind: rapid.SampledFrom(kit.FaultErrKinds).Draw(t, "err_kind"), Stats: rapid.IntRange(0, 2).Draw(t, "stats") == 0, Ser: rapid.Bool().Draw(t, "ser")}
+	n := rapid.IntRange(1, 4).Draw(t, "n")
+	for i := 0; i < n; i++ {
+		// at most two envelopes per stream: the client buffers that many for a caller that is not reading (more would
+		// block the connection's dispatch, which is documented head-of-line blocking, not a failure)
+		s := C09LateStream{Complete: rapid.Bool().Draw(t, "complete")}
+		if s.Complete {
+			s.Bodies = rapid.IntRange(0, 1).Draw(t, "bodies")
+			s.Code = rapid.SampledFrom([]int{0, 0, 5, 13}).Draw(t, "code")
+		} else {
+			s.Bodies = rapid.IntRange(0, 2).Draw(t, "bodies")
+		}
+		c.Streams = append(c.Streams, s)
+	}
+	return c
+}
+
+func execC09Late(t *testing.T, prop string, c C09Late) (v Verdict) {
+	defer kit.UseFaultKind(c.ErrKind)()
+	n := len(c.Streams)
+	type obs struct {
+		recv [][]byte
+		end  *kit.ErrObs
+		done bool
+	}
+	o := make([]obs, n)
+	var mu sync.Mutex
+	res := kit.Bubble(t, func() {
+		bg := context.Background()
+		tp := kit.NewTap()
+		l := kit.NewLink("c0", tp, c.Ser)
+		var dopts []goat.DialOption
+		if c.Stats {
+			dopts = append(dopts, goat.WithStatsHandler(nopStats{}))
+		}
+		cc := goat.NewClientConn(l.A, "c0", kit.ServerName, dopts...)
+		read := make(chan struct{})
+		for i := range c.Streams {
+			i := i
+			go func() {
+				cs, err := cc.NewStream(bg, kit.StreamDescFor(kit.KindServer), kit.FullMethod(fmt.Sprintf("m%d", i)))
+				if err != nil {
+					e := kit.Observe(err)
+					mu.Lock()
+					o[i].end, o[i].done = &e, true
+					mu.Unlock()
+					return
+				}
+				_ = kit.SendBytes(cs, []byte("q"))
+				_ = cs.CloseSend()
+				<-read // the caller gets round to its stream only after the connection has failed
+				for k := 0; k < 8; k++ {
+					b, err := kit.RecvBytes(cs)
+					if err != nil {
+						e := kit.Observe(err)
+						mu.Lock()
+						o[i].end, o[i].done = &e, true
+						mu.Unlock()
+						return
+					}
+					mu.Lock()
+					o[i].recv = append(o[i].recv, b)
+					mu.Unlock()
+				}
+			}()
+			kit.Settle()
+		}
+		ids := map[string]uint64{}
+		for _, rq := range l.B.ReadAvailable() {
+			if m := rq.GetHeader().GetMethod(); ids[m] == 0 {
+				ids[m] = rq.GetId()
+			}
+		}
+		for i, s := range c.Streams {
+			m := kit.FullMethod(fmt.Sprintf("m%d", i))
+			for j := 0; j < s.Bodies; j++ {
+				e := kit.EnvSpec{Body: &kit.Payload{Class: "lit", Lit: []byte{byte(i), byte(j)}}, Wrap: true}
+				_ = l.B.Write(bg, e.Build(ids[m], m, kit.ServerName, "c0"))
+				kit.Settle()
+			}
+			if s.Complete {
+				e := kit.EnvSpec{Status: &kit.StatusSpec{Code: int32(s.Code), Msg: "done"}, Trailer: true}
+				_ = l.B.Write(bg, e.Build(ids[m], m, kit.ServerName, "c0"))
+				kit.Settle()
+			}
+		}
+		l.A.FailReads(nil)
+		if c.WriteFails {
+			l.A.FailWrites(nil)
+		}
+		kit.Settle()
+		close(read)
+		kit.Settle()
+		l.Close()
+		cc.Close()
+		kit.Settle()
+	})
+	if res.Panic != nil {
+		v.failf("panic: %v\n%s", res.Panic, res.Stack)
+	}
+	mu.Lock()
+	defer mu.Unlock()
+	completeN := 0
+	for i, s := range c.Streams {
+		if !o[i].done {
+			v.failf("stream %d: the caller's receives never ended although the connection had failed", i)
+			continue
+		}
+		var want [][]byte
+		for j := 0; j < s.Bodies; j++ {
+			want = append(want, []byte{byte(i), byte(j)})
+		}
+		if s.Complete {
+			completeN++
+			if !kit.BytesEq(o[i].recv, want) {
+				v.failf("stream %d: its complete response (%d messages and the trailer) had been delivered before the connection failed, the caller got %d messages", i, s.Bodies, len(o[i].recv))
+			}
+			if s.Code == 0 && !o[i].end.EOF {
+				v.failf("stream %d: its complete response with an OK trailer had been delivered before the connection failed, the caller got %q instead of io.EOF", i, o[i].end.Raw)
+			}
+			if s.Code != 0 && o[i].end.Code != codes.Code(s.Code).String() {
+				v.failf("stream %d: its complete response with status %s had been delivered before the connection failed, the caller got %q", i, codes.Code(s.Code), o[i].end.Raw)
+			}
+			continue
+		}
+		if o[i].end.EOF {
+			v.failf("stream %d: no trailer had arrived when the connection failed, the caller got a clean io.EOF", i)
+		}
+		if len(o[i].recv) > len(want) {
+			v.failf("stream %d: the caller got %d messages, only %d had been sent", i, len(o[i].recv), len(want))
+		}
+		for k, b := range o[i].recv {
+			if !bytes.Equal(b, want[k]) {
+				v.failf("stream %d: message %d is not the one that was sent", i, k)
+			}
+		}
+	}
+	v.Info = kit.CaseInfo{Labels: []string{"late-readers", fmt.Sprintf("late.some_complete=%v", completeN > 0), "late.read_error=" + c.ErrKind}, NonTrivial: true, Key: fmt.Sprintf("%+v", c), Sample: c}
+	return
+}
+
+func TestC09Late(t *testing.T) {
+	checkProp(t, "C09", "late", genC09Late, func(t *testing.T, c C09Late) Verdict { return execC09Late(t, "C09", c) })
+}
+
+// The same scenario is C02's business too: what was delivered completely is delivered exactly.
+func TestC02Late(t *testing.T) {
+	checkProp(t, "C02", "late", genC09Late, func(t *testing.T, c C09Late) Verdict { return execC09Late(t, "C02", c) })
+}
